@@ -32,7 +32,7 @@ META = dict(
 )
 
 PREFIX = ("reg", "conn", "uod")
-ALPHABET = ("rs1", "tA+6", "stop1", "disc", "reg", "conn", "uod", "restart")
+ALPHABET = ("rs1", "tA+6", "stop1", "disc", "reg", "conn", "uod", "restart", "bounce")   # bounce = disc+reg+conn+uod in one step
 RUN = "r1"
 
 
